@@ -230,7 +230,19 @@ macro_rules! root {
                     })
                     .collect();
                 let csv = $crate::outcome::guarded(|| schema.to_csv());
-                let data = sink.data.clone();
+                let mut data = sink.data.clone();
+                // Padding inside zero-copy images is uninitialised memory that
+                // the serializer copied into the stream: give those bytes a
+                // value before a debugging aid formats them (Miri/valgrind
+                // would otherwise blame the read, which no property forbids).
+                let enc = model::enc::encode(&self.ty(), v, self.type_name());
+                if enc.care.len() == data.len() {
+                    for (b, c) in data.iter_mut().zip(&enc.care) {
+                        if !*c {
+                            *b = 0;
+                        }
+                    }
+                }
                 let debug = $crate::outcome::guarded(|| schema.debug(&data));
                 Ok($crate::root::SchemaOut { rows, csv, debug })
             }
